@@ -674,3 +674,47 @@ func isCreateTempFile(c *core.Ctx, v ssa.Value) bool {
 	}
 	return true
 }
+
+// literalStores: what the fields of the struct value v were filled with — v built in place (a literal, or a local filled
+// field by field), or handed back by value (or by pointer) from a builder of the module whose parameters then stand for
+// the arguments of the call.  Stores of all returns of the builder are merged.
+func literalStores(c *core.Ctx, v ssa.Value) map[string][]ssa.Value {
+	ss := structStores(an.Origin(v))
+	if len(ss) == 0 {
+		if u, ok := an.Strip(v).(*ssa.UnOp); ok {
+			ss = structStores(u.X)
+		}
+	}
+	if len(ss) > 0 {
+		return ss
+	}
+	hr := an.HelperReturns(an.Origin(v), func(h *ssa.Function) bool { return strings.HasPrefix(core.FuncPkgPath(h), c.P.Module) })
+	if len(hr) == 0 {
+		if u, ok := an.Strip(v).(*ssa.UnOp); ok {
+			hr = an.HelperReturns(an.Origin(u.X), func(h *ssa.Function) bool { return strings.HasPrefix(core.FuncPkgPath(h), c.P.Module) })
+		}
+	}
+	out := map[string][]ssa.Value{}
+	for _, r := range hr {
+		var inner map[string][]ssa.Value
+		switch x := an.Strip(r.Val).(type) {
+		case *ssa.UnOp:
+			inner = structStores(x.X)
+		case *ssa.Alloc:
+			inner = structStores(x)
+		}
+		for k, vs := range inner {
+			for _, sv := range vs {
+				if p, isP := an.Origin(sv).(*ssa.Parameter); isP {
+					for i, hp := range r.Callee.Params {
+						if hp == p && i < len(r.Call.Call.Args) {
+							sv = r.Call.Call.Args[i]
+						}
+					}
+				}
+				out[k] = append(out[k], sv)
+			}
+		}
+	}
+	return out
+}
